@@ -3,6 +3,9 @@
 //	read:  the real journal iterator (journal.NewJIterator, what cursors and pipe workers read with) is read to its
 //	       end in rounds over the real journal of an in-process server, with the chunk objects interposed so that
 //	       every look at the confirmed count is recorded and appends+flushes can be injected between two looks.
+//	range: /repo's own journal iterator (partition.NewJIterator, what cursors with RANGE read with) is read to its end
+//	       three times over the same interposed journal, an append+flush injected before each look in turn; oracle:
+//	       nothing readable is stepped over (the defect was repaired in /repo; a skip is a regression).
 //	wait:  Query with WaitTimeout at the end of one / several partitions on the real server; the write is injected
 //	       at a protocol point (schedule hook before Chunks().WaitForNewData); oracle: the event is returned well
 //	       before the time-out; nothing written => empty after the time-out.
@@ -252,13 +255,13 @@ func runRead(srv *Server, rc ReadCase) (*Case, error) {
 	var v *Violation
 	for i, x := range all {
 		if x != rc.P0+i {
-			v = &Violation{Class: "reader-eof-count-reread-skips-records", Detail: fmt.Sprintf("start %d: delivered %v: record %d was stepped over", rc.P0, all, rc.P0+i)}
+			v = &Violation{Class: classDepReader, Detail: fmt.Sprintf("start %d: delivered %v: record %d was stepped over", rc.P0, all, rc.P0+i)}
 			break
 		}
 	}
 	last := rounds[len(rounds)-1]
 	if v == nil && last.pos != rc.P0+len(all) {
-		v = &Violation{Class: "reader-eof-count-reread-skips-records", Detail: fmt.Sprintf("start %d, %d records delivered, but the reader's position is %d (of %d readable): records %d..%d will never be delivered and WaitForNewData(%d) blocks",
+		v = &Violation{Class: classDepReader, Detail: fmt.Sprintf("start %d, %d records delivered, but the reader's position is %d (of %d readable): records %d..%d will never be delivered and WaitForNewData(%d) blocks",
 			rc.P0, len(all), last.pos, h.total, rc.P0+len(all), last.pos-1, last.pos)}
 	}
 	inRound := 0
@@ -308,15 +311,26 @@ func genRead(r *Rng) ReadCase {
 
 // ---------------------------------------------------------------- range: /repo's own journal iterator
 
+// The end-of-data re-read has two sites. The journal iterator of the dependency github.com/logrange/range (stream
+// `read`) is outside /repo: its class is a recorded finding. /repo's own iterator for RANGE queries (stream `range`:
+// pkg/partition/jiterator.go + cselector.go getPosForward) was repaired: its class is not recorded, a skip there is
+// a regression.
+const classDepReader = "reader-eof-count-reread-skips-records:dependency-jiterator"
+const classPartReader = "reader-eof-count-reread-skips-records:partition-jiterator"
+
 type RangeCase struct {
 	N0 int `json:"n0"`
 	P0 int `json:"p0"`
 	K  int `json:"k"`
+	At int `json:"at"` // the look (0-based, counted over the case) before which K records are appended and flushed
 }
 
-// readRange reads the partition to its end twice with partition.NewJIterator (the iterator of RANGE queries);
-// injectAt < 0: only count the looks of the first round
-func readRange(srv *Server, rc RangeCase, injectAt int) (looks int, delivered []int, pos1 int, err error) {
+const rangeRounds = 3
+
+// readRange reads the partition to its end three times with partition.NewJIterator (the iterator of RANGE queries);
+// injectAt < 0: only count the looks of the first two rounds. An injection before any look of the first two rounds
+// is readable at the latest in the third one.
+func readRange(srv *Server, rc RangeCase, injectAt int) (looks int, delivered []int, posEnd int, err error) {
 	tags := "rg=" + nextId("g")
 	if err = writeN(srv, tags, 0, rc.N0); err != nil {
 		return
@@ -342,7 +356,7 @@ func readRange(srv *Server, rc RangeCase, injectAt int) (looks int, delivered []
 	it := partition.NewJIterator(model.TimeRange{MinTs: math.MinInt64, MaxTs: math.MaxInt64}, &wJournal{j, h}, srv.TsIndexer, srv.Partitions.GetTmIndexRebuilder())
 	it.SetPos(journal.Pos{CId: cks[0].Id(), Idx: uint32(rc.P0)})
 	ctx := context.Background()
-	for r := 0; r < 2; r++ {
+	for r := 0; r < rangeRounds; r++ {
 		for guard := 0; guard < 100000; guard++ {
 			rec, e := it.Get(ctx)
 			if e == io.EOF {
@@ -362,34 +376,46 @@ func readRange(srv *Server, rc RangeCase, injectAt int) (looks int, delivered []
 			it.Next(ctx)
 		}
 		it.Release()
-		if r == 0 {
+		if r == rangeRounds-2 {
 			looks = h.calls
-			pos1 = int(it.Pos().Idx)
 		}
 	}
+	posEnd = int(it.Pos().Idx)
 	it.Close()
 	return
 }
 
-func runRange(srv *Server, rc RangeCase) (*Case, error) {
+// rangeLooks: the number of looks at the confirmed count in the first two read-to-end rounds without injection
+func rangeLooks(srv *Server, rc RangeCase) (int, error) {
 	looks, _, _, err := readRange(srv, rc, -1)
 	if err != nil {
-		return nil, err
+		return 0, err
 	}
 	if looks == 0 {
-		return nil, fmt.Errorf("range case: the iterator never looked at the count")
+		return 0, fmt.Errorf("range case: the iterator never looked at the count")
 	}
-	_, del, pos1, err := readRange(srv, rc, looks-1)
+	return looks, nil
+}
+
+// runRange: K records are appended and flushed right before the look rc.At; everything readable must have been
+// delivered, in order, after the third round, and the iterator must stand behind the last record
+func runRange(srv *Server, rc RangeCase) (*Case, error) {
+	_, del, posEnd, err := readRange(srv, rc, rc.At)
 	if err != nil {
 		return nil, err
 	}
-	skipped := len(del) != rc.N0-rc.P0+rc.K
+	skipped := len(del) != rc.N0-rc.P0+rc.K || posEnd != rc.N0+rc.K
+	for i, x := range del {
+		if x != rc.P0+i {
+			skipped = true
+		}
+	}
 	var v *Violation
 	if skipped {
-		v = &Violation{Class: "reader-eof-count-reread-skips-records", Detail: fmt.Sprintf("partition.JIterator (RANGE queries): %d readable, reader at %d, %d records flushed right before the last look of the read-to-end: delivered %v, position after the first round %d", rc.N0, rc.P0, rc.K, del, pos1)}
+		v = &Violation{Class: classPartReader, Detail: fmt.Sprintf("partition.JIterator (RANGE queries): %d readable, reader at %d, %d records flushed right before look %d: three read-to-end rounds delivered %v, final position %d (of %d)", rc.N0, rc.P0, rc.K, rc.At, del, posEnd, rc.N0+rc.K)}
 	}
 	return &Case{Coq: GApp("KRange", GBool(skipped)), Replay: map[string]interface{}{"kind": "range", "range": rc}, NonTrivial: true, Oracle: v,
-		Stream: "range", Key: fmt.Sprintf("range/%d/%d/%d", rc.N0, rc.P0, rc.K)}, nil
+		Stream: "range", Key: fmt.Sprintf("range/%d/%d/%d/%d", rc.N0, rc.P0, rc.K, rc.At)}, nil
 }
 
 // ---------------------------------------------------------------- wait: schedule hook before WaitForNewData
@@ -814,14 +840,26 @@ func main() {
 			}
 			c.Add(*cs)
 		}
-		for i := 0; i < c.N(12); i++ {
+		// range: the former witness first (3 readable, reader at 3, the flush right before the last look of the first
+		// round), then every look of the first two rounds of random small partitions
+		for i := 0; i < c.N(12)+1; i++ {
 			n0 := c.Rng.PickInt(1, 2, 3, 5)
 			rc := RangeCase{N0: n0, P0: c.Rng.PickInt(0, n0), K: c.Rng.Range(1, 3)}
-			cs, err := runRange(srv, rc)
+			if i == 0 {
+				rc = RangeCase{N0: 3, P0: 3, K: 2}
+			}
+			looks, err := rangeLooks(srv, rc)
 			if err != nil {
 				return err
 			}
-			c.Add(*cs)
+			for at := 0; at < looks; at++ {
+				rc.At = at
+				cs, err := runRange(srv, rc)
+				if err != nil {
+					return err
+				}
+				c.Add(*cs)
+			}
 		}
 		nw := c.N(70)
 		jobs := make([]WaitCase, nw)
